@@ -102,28 +102,28 @@ package annotations
 //@ macro func poList(text string) string = strings.TrimSpace(reGroup(packageOnlyRegex, text, 1))
 
 //@ func parseImmutableAnnotation
-//@   props C15 C09 C10
+//@   props C15 C09 C10 C01
 //@   fresh
 //@   ensures (result != nil) == reMatches(immutableRegex, commentText)
 //@   ensures result != nil ==> result.OnType == typeName && result.OnTypePos == pos
 //@   assigns nothing
 
 //@ func parseTestOnlyAnnotation
-//@   props C15 C09 C10
+//@   props C15 C09 C10 C03
 //@   fresh
 //@   ensures (result != nil) == reMatches(testonlyRegex, commentText)
 //@   ensures result != nil ==> result.Kind == kind && result.ObjectName == objectName && result.Pos == pos && result.ReceiverType == receiverType
 //@   assigns nothing
 
 //@ func parseMutableAnnotation
-//@   props C15 C09 C10
+//@   props C15 C09 C10 C01
 //@   fresh
 //@   ensures (result != nil) == reMatches(mutableRegex, commentText)
 //@   ensures result != nil ==> result.OnType == typeName && result.FieldName == fieldName && result.Pos == pos
 //@   assigns nothing
 
 //@ func parseConstructorAnnotation
-//@   props C15 C09 C10
+//@   props C15 C09 C10 C01 C02
 //@   fresh
 //@   ensures (result != nil) == (reMatches(constructorRegex, commentText) && listAny(ctorList(commentText)))
 //@   ensures result != nil ==> result.OnType == typeName && result.OnTypePos == pos && (forall x string :: contains(result.ConstructorNames, x) <==> listHas(ctorList(commentText), false, x))
@@ -134,7 +134,7 @@ package annotations
 //@   loop 1 invariant forall j int :: 0 <= j && j < len(names) ==> (exists k int :: 0 <= k && k < $i && strings.TrimSpace(parts[k]) != "" && names[j] == strings.TrimSpace(parts[k]))
 
 //@ func parsePackageOnlyAnnotation
-//@   props C15 C09 C10
+//@   props C15 C09 C10 C04
 //@   fresh
 //@   ensures (result != nil) == reMatches(packageOnlyRegex, commentText)
 //@   ensures result != nil ==> result.Kind == kind && result.ObjectName == objectName && result.Pos == pos && result.ReceiverType == receiverType
@@ -205,7 +205,7 @@ package annotations
 //@ pure func mfilesHit(fs []*ast.File, n int, t string, fname string, p token.Pos, cur string) bool = exists f int :: 0 <= f && f < n && f < len(fs) && mdeclsHit(fs[f], len(fs[f].Decls), t, fname, p, cur)
 //@ pure func mutHasP(l []MutableAnnotation, t string, fname string, p token.Pos) bool = exists i int :: 0 <= i && i < len(l) && l[i].OnType == t && l[i].FieldName == fname && l[i].Pos == p
 //@ func readFieldAnnotationsForType
-//@   props C15 C09 C10
+//@   props C15 C09 C10 C01
 //@   merge
 //@   assigns nothing
 //@   ensures forall i int :: 0 <= i && i < len(result) ==> result[i].OnType == typeName
@@ -232,7 +232,7 @@ package annotations
 //@ axiom ann_matcher_built: matcher != nil
 
 //@ func ReadAllAnnotations
-//@   props C15 C09 C14 C06 C17 C10
+//@   props C15 C09 C14 C06 C17 C10 C01 C02 C03 C04 C05
 //@   merge
 //@   requires cfg != nil && pass.Pkg != nil && pass.TypesInfo != nil
 //@   assigns nothing
@@ -288,7 +288,7 @@ package annotations
 //@   loop 1 frame
 //@   loop 1 invariant forall pth string, n string :: (exists q int :: 0 <= q && q < len(result) && result[q].PackageName == pth && result[q].InterfaceName == n) <==> (exists k int :: 0 <= k && k < $i && !input[k].PackageNotFound && input[k].PackageFullPath == pth && input[k].InterfaceName == n)
 //@ func PackageAnnotations.ToTypeQuery
-//@   props C10
+//@   props C10 C05
 //@   assigns nothing
 //@   loop 1 frame
 //@   loop 1 invariant dedupMap != nil && fresh(dedupMap)
